@@ -42,6 +42,7 @@ func seqPrelude(S, E Sort) string {
 (assert (forall ((s $S) (n Int) (k Int)) (! (=> (and (<= 0 n) (<= n k) (< k (len.$S s))) (= (at.$S (drop.$S s n) (- k n)) (at.$S s k)))
      :pattern ((drop.$S s n) (at.$S s k)) :qid drop_at2.$S)))
 (assert (forall ((s $S)) (! (= (take.$S s 0) empty.$S) :pattern ((take.$S s 0)) :qid take0.$S)))
+(assert (forall ((s $S)) (! (=> (>= (len.$S s) 1) (= (take.$S s 1) (unit.$S (at.$S s 0)))) :pattern ((take.$S s 1)) :qid take1.$S)))
 (assert (forall ((s $S)) (! (= (drop.$S s 0) s) :pattern ((drop.$S s 0)) :qid drop0.$S)))
 (assert (forall ((s $S) (n Int)) (! (=> (= n (len.$S s)) (and (= (take.$S s n) s) (= (drop.$S s n) empty.$S))) :pattern ((take.$S s n)) :pattern ((drop.$S s n)) :qid takedrop_all.$S)))
 (assert (forall ((a $S) (b $S) (n Int)) (! (=> (= n (len.$S a)) (= (take.$S (cat.$S a b) n) a)) :pattern ((take.$S (cat.$S a b) n)) :qid take_cat.$S)))
@@ -112,7 +113,14 @@ func fullPrelude(cvc5 bool) string {
 	} else {
 		sb.WriteString(basePrelude)
 	}
-	sb.WriteString(seqPrelude(SStr, SInt))
+	// strings are sequences of bytes: unit.Str is specified for byte values only, and every element is a byte
+	strPre := seqPrelude(SStr, SInt)
+	strPre = strings.Replace(strPre, "(assert (forall ((e Int)) (! (and (= (len.Str (unit.Str e)) 1) (= (at.Str (unit.Str e) 0) e)) :pattern ((unit.Str e)) :qid unit.Str)))",
+		"(assert (forall ((e Int)) (! (and (= (len.Str (unit.Str e)) 1) (=> (and (<= 0 e) (< e 256)) (= (at.Str (unit.Str e) 0) e))) :pattern ((unit.Str e)) :qid unit.Str)))\n(assert (forall ((s Str) (i Int)) (! (and (<= 0 (at.Str s i)) (< (at.Str s i) 256)) :pattern ((at.Str s i)) :qid byte_range)))", 1)
+	if !strings.Contains(strPre, "byte_range") {
+		panic("prelude: unit.Str axiom not found")
+	}
+	sb.WriteString(strPre)
 	sb.WriteString(seqPrelude(SSeqRef, SRef))
 	sb.WriteString(seqPrelude(SSeqStr, SStr))
 	for _, v := range []Sort{SInt, SBool, SRef, SStr, SSeqRef, SSeqStr} {
